@@ -441,3 +441,7 @@ func PrintOutcome(o Outcome) {
 	b, _ := json.Marshal(o)
 	fmt.Println("VERIF-OUTCOME " + string(b))
 }
+
+// SetTiKVRegions tells the executor's TiKV client model where the key space is split into regions
+// (ascending keys). Natively it does nothing: the mock cluster is bootstrapped with the split keys.
+func SetTiKVRegions(splits [][]byte) {}
